@@ -284,8 +284,8 @@ def do_finally(
 
         def dispose(self) -> None:
             if not self.was_invoked[0]:
-                finally_action()
                 self.was_invoked[0] = True
+                finally_action()
 
     def subscribe(
         observer: abc.ObserverBase[_T],
@@ -297,8 +297,8 @@ def do_finally(
             observer.on_completed()
             try:
                 if not was_invoked[0]:
-                    finally_action()
                     was_invoked[0] = True
+                    finally_action()
             except Exception as err:  # pylint: disable=broad-except
                 observer.on_error(err)
 
@@ -306,8 +306,8 @@ def do_finally(
             observer.on_error(exception)
             try:
                 if not was_invoked[0]:
-                    finally_action()
                     was_invoked[0] = True
+                    finally_action()
             except Exception as err:  # pylint: disable=broad-except
                 observer.on_error(err)
 
